@@ -22,3 +22,73 @@ contract('pyx12.path.X12Path.__init__',
                   "(self.seg_id is None and self.id_val is None and self.ele_idx is None and self.subele_idx is None)"],
          raises={'X12PathError': 'path_error(path_str)'},
          serves=['C17'])
+
+
+# ---- bounded native safety net (C17): the same contract evaluated natively on generated path texts of ANY length -------------
+def bounded_path(seed, tier):
+    """X12Path(text) on the real class against the contract of this file for: every text over a boundary alphabet up to length 4
+    (quick) / 5 (thorough), generated well-formed paths (0-4 loop ids, optional segment / qualifier / element / component,
+    absolute and relative, trailing slash) and single-character corruptions of them - no length bound"""
+    import itertools
+    import random
+    import pyx12.path
+    import pyx12.errors
+    rnd = random.Random(seed)
+    alpha = ['/', 'A', 'B', '1', '0', '[', ']', '-', ' ', 'a']
+    texts = set([''])
+    for n in range(1, (4 if tier == 'quick' else 5) + 1):
+        for t in itertools.product(alpha, repeat=n):
+            texts.add(''.join(t))
+    loops = ['2000A', '2300', '2400', 'ISA_LOOP', 'ST_LOOP', 'DETAIL', '2010BA', 'X']
+    for _ in range(3000 if tier == 'quick' else 30000):
+        p = '/' if rnd.random() < 0.5 else ''
+        p += '/'.join(rnd.choice(loops) for _ in range(rnd.randint(0, 4)))
+        last = ''
+        if rnd.random() < 0.8:
+            last = rnd.choice(['NM1', 'CLM', 'HL', 'REF', 'N1', 'SV1', ''])
+            if rnd.random() < 0.4:
+                last += '[%s]' % rnd.choice(['85', 'F8', '6R', 'XX1', ''])
+            if rnd.random() < 0.7:
+                last += rnd.choice(['01', '02', '09', '10', '15', '99', '1', '100'])
+                if rnd.random() < 0.4:
+                    last += '-%s' % rnd.choice(['1', '2', '10', '', '0'])
+        if last:
+            p = p + ('/' if p and not p.endswith('/') else '') + last
+        elif rnd.random() < 0.3:
+            p += '/'
+        texts.add(p)
+        if p and rnd.random() < 0.5:
+            k = rnd.randrange(len(p))
+            texts.add(p[:k] + rnd.choice(alpha + ['', '//']) + p[k + 1:])
+    fails, n = [], 0
+    for t in sorted(texts):
+        n += 1
+        want_err = path_error(t)
+        try:
+            x = pyx12.path.X12Path(t)
+        except pyx12.errors.X12PathError:
+            if not want_err and len(fails) < 8:
+                fails.append({'input': {'path_str': t}, 'detail': 'X12PathError although the text has none of the two documented defects'})
+            continue
+        except Exception as e:
+            if len(fails) < 8:
+                fails.append({'input': {'path_str': t}, 'detail': 'raised %s: %s' % (type(e).__name__, str(e)[:80])})
+            continue
+        bad = None
+        if want_err:
+            bad = 'accepted although a qualifier / element index has no segment id'
+        elif x.relative != (t[0:1] != '/'):
+            bad = 'relative flag %r' % x.relative
+        elif wf_path(t):
+            last = last_piece(body_of(t), '/')
+            if x.__repr__() != t:
+                bad = 'prints back %r' % x.__repr__()
+            elif is_refdes(last) and (x.seg_id, x.id_val, x.ele_idx, x.subele_idx) != refdes_parts(last):
+                bad = 'designator parts %r, expected %r' % ((x.seg_id, x.id_val, x.ele_idx, x.subele_idx), refdes_parts(last))
+            elif not is_refdes(last) and not (x.seg_id is None and x.id_val is None and x.ele_idx is None and x.subele_idx is None):
+                bad = 'designator parts set for a path that names only loops'
+        if bad and len(fails) < 8:
+            fails.append({'input': {'path_str': t}, 'detail': bad})
+    return {'function': 'pyx12.path.X12Path.__init__', 'evaluations': n,
+            'bound': '%d texts: boundary alphabet to length %d, generated paths and their single-character corruptions' % (len(texts), 4 if tier == 'quick' else 5),
+            'failures': fails}
